@@ -90,8 +90,17 @@ def stream_msg():
     return st.one_of(def_msg(), def_msg(), set_msg(), set_msg(), set_msg(), del_msg(), other_msg)
 
 
-def stream(max_len=40):
-    return st.lists(st.fixed_dictionaries({"spec": stream_msg(), "choices": st.none() | gen.choices}), min_size=1, max_size=max_len)
+@st.composite
+def stream(draw, max_len=40):
+    items = draw(st.lists(st.fixed_dictionaries({"spec": stream_msg(), "choices": st.none() | gen.choices}), min_size=1, max_size=max_len))
+    # servers repeat themselves (every getProperties is answered with the same definitions again): some messages of the
+    # stream are verbatim copies of an earlier one, with other traffic in between
+    import copy
+
+    for src, gap in draw(st.lists(st.tuples(st.integers(0, 1000), st.integers(0, 6)), max_size=4)):
+        s_ = src % len(items)
+        items.insert(min(len(items), s_ + 1 + gap), copy.deepcopy(items[s_]))
+    return items
 
 
 def to_library(item):
